@@ -58,7 +58,28 @@ def run(ctx, rep):
             rep.stat('lhs:' + ('path' if l.split(':')[0].replace('.', '').isalnum() else 'hostile'))
         rep.case(key=repr((sc['_leaves'], sc['queries'][0]['creds'], sc['queries'][0]['target'])), nontrivial=True,
                  n=len(outs), sample={'leaves': sc['_leaves'], 'creds': sc['queries'][0]['creds'], 'outcomes': outs})
-    scenario.run_all(rep, scs, 'eval-hostile', check)
+    first = scenario.run_all(rep, scs, 'eval-hostile', check)
+    # the same requests with debug logging switched on for the whole library must neither crash nor decide differently
+    import logging
+    lg = logging.getLogger('oslo_policy')
+    old_level, old_disable = lg.level, logging.root.manager.disable
+    h = logging.NullHandler()
+    lg.addHandler(h)
+    lg.setLevel(logging.DEBUG)
+    logging.disable(logging.NOTSET)
+    try:
+        for sc, base in list(zip(scs, first))[:ctx.n(400, 10000)]:
+            outs = scenario.impl_run(sc)
+            if outs != base:
+                k = [j for j in range(len(outs)) if outs[j] != base[j]][0]
+                rep.fail('c14debug:%r' % (sc['_leaves'],), 'with debug logging on, enforce with leaves %r, credentials %r gives %s instead of %s'
+                         % (sc['_leaves'], sc['queries'][k]['creds'], outs[k], base[k]), {'rules': sc['rules'], 'query': sc['queries'][k]})
+            rep.stat('debug_logging_pass')
+            rep.case(n=len(outs))
+    finally:
+        lg.setLevel(old_level)
+        lg.removeHandler(h)
+        logging.disable(logging.CRITICAL)
 
 
 def replay(ctx, rep, data):
